@@ -60,10 +60,13 @@ PROPS = {
                                'The full coverage clause [from, to) is REFUTED on the faithful '
                                'model (C07_cover_full_refuted: request (10,20) emits 11..20) - open known finding F6.  Model tied to the code on every run '
                                'by a correspondence check (real RecoveryConsumer/KafkaConsumer over scripted clients vs extracted model, per-op observables).',
-                    level_note='Proved: the theorems above (closed under the global context).  NOT proved: soundness of the decision procedure spec_c07 '
-                               'for the model (spec_c07 i (model_obs i) has only F6-shaped failures) - it is only exercised: every run evaluates it on the '
-                               'model-agreeing implementation observations; a clause failure without model/implementation difference would show up as a '
-                               'false alarm, none in >100k cases.  Tied by the differential run only (generator-bounded: <=4 recovering partitions, windows '
+                    level_note='Proved: the theorems above (closed under the global context).  Soundness of the decision procedure spec_c07 for the model (Proofs/RecoverySpecSound.v, C07_spec_sound_partial): PROVED for all '
+                               'configurations and op lists for clauses 2 (flags and window), 3 (completion), 4 (truncation); ONLY EXERCISED (evaluated every run on '
+                               'model-agreeing observations, no false alarm in >400k cases) for clause 1 (coverage through cover_fails/watched, incl. the F6/F11 '
+                               'shape classification) and clause 5 (nothing outside the request window) - their content is proved on the model directly '
+                               '(C07_cover_partial, C07_window) but not the link through cover_of: the guard does not yet formally imply the theorem hypothesis '
+                               'fresh_request (ops before the Request leave the tracker entry of the partition empty; maxrec-trimmed requests), and Wild '
+                               'stragglers are inside the guard but outside the theorem.  Tied by the differential run only (generator-bounded: <=4 recovering partitions, windows '
                                '<=200, <=~60 ops): that Model/Recovery.v is the Go code.  The recovery client is an oracle (fresh records in order after '
                                'Assign, stale records below its position, stragglers ahead of it inside the window and off the broadcast grid); spec guard '
                                '(watched) = hypothesis of C07_cover_partial (ok_op) from the op after the one Request of the partition onwards; coverage theorem excludes arbitrary records / second requests / cancel-all on '
@@ -81,7 +84,8 @@ PROPS = {
                     level_note='Same trusted base and limits as C07.  A crash is modelled as replacement by an instance that has received the compacted '
                                'topic before it is told its partitions; two instances running concurrently are not modelled (a revoked instance emits '
                                'nothing by C09_revoke_stops).  The 10 s refresh ticker is not modelled: Refresh is an op that may occur anywhere.  spec_c09 '
-                               'soundness for the model is not proved (exercised only).',
+                               'soundness for the model (C09_spec_sound_partial): PROVED for clauses 1 (refresh exactness incl. re-assignment iff changed), 4 (revoke '
+                               'stops) and 5 (owned set); ONLY EXERCISED for clauses 2/3 (hand-off / progress coverage through cover_fails).',
                     technique=_M, design_ref='DESIGN.md section 8, E4')),
     'C19': dict(engine='e4', n=dict(quick=3000, thorough=60000), components=[1, 5, 10, 11],
                 manifest=dict(
